@@ -6,23 +6,23 @@ Require Import Raft.Quorum Raft.QuorumProofs Raft.RaftModel Raft.RaftSys Raft.Ra
 Import ListNotations.
 
 Section Steps2.
-  Variables c0 c1 : list nat.
-  Hypothesis Hcfg : c0 <> [] \/ c1 <> [].
+  Variable F : list (list nat * list nat).
+  Hypothesis HF : inter_family F.
 
   (* ---------------------------------------------------------------- emit *)
   Lemma leader_CP : forall s id c,
-    Inv c0 c1 s -> n_role (nodes s id) = Leader -> c <= n_commit (nodes s id) ->
-    CP c0 c1 s (n_term (nodes s id)) c.
+    Inv F s -> n_role (nodes s id) = Leader -> c <= n_commit (nodes s id) ->
+    CP F s (n_term (nodes s id)) c.
   Proof.
-    intros s id c I Hr Hc. pose proof (hW5 _ _ _ I id Hr) as HLL. unfold nd in HLL.
-    destruct (hK9 _ _ _ I id) as [H1 H2]. unfold nd in H1, H2.
+    intros s id c I Hr Hc. pose proof (hW5 _ _ I id Hr) as HLL. unfold nd in HLL.
+    destruct (hK9 _ _ I id) as [H1 H2]. unfold nd in H1, H2.
     split; [rewrite HLL; lia|].
     destruct H2 as [H2|(t0 & k0 & Ht0 & Hc0 & Hk0 & _)]; [left; lia|].
     right. exists t0, k0. split; [exact Ht0|]. split; [exact Hc0|lia].
   Qed.
 
   Lemma step_emit : forall s id m,
-    Inv c0 c1 s -> emit_okb id (nodes s id) m = true -> Inv c0 c1 (add_msgs s [m]).
+    Inv F s -> emit_okb id (nodes s id) m = true -> Inv F (add_msgs s [m]).
   Proof.
     intros s id m I H. apply inv_add_msgs; [exact I|]. intros m' [<-|[]].
     unfold emit_okb in H. apply andb_true_iff in H as [H Hty]. apply andb_true_iff in H as [Hfrom Hterm].
@@ -44,10 +44,10 @@ Section Steps2.
       assert (Hr : n_role n = Leader) by (destruct (n_role n); try discriminate; reflexivity).
       apply Nat.eqb_eq in Hlt. apply Nat.leb_le in Hcm.
       destruct (is_segment_spec _ _ _ Hseg) as [Hs1 Hs2].
-      pose proof (hW5 _ _ _ I id Hr) as HLL. unfold nd in HLL. fold n in HLL.
+      pose proof (hW5 _ _ I id Hr) as HLL. unfold nd in HLL. fold n in HLL.
       rewrite Hterm. rewrite HLL.
       split; [|split; [exact Hs1|split; [exact Hs2|split; [exact Hlt|]]]].
-      + rewrite <- HLL. apply (hW8 _ _ _ I _ id). apply (hA6b _ _ _ I id Hr).
+      + rewrite <- HLL. apply (hW8 _ _ I _ id). apply (hA6b _ _ I id Hr).
       + apply leader_CP; assumption.
     - (* MsgHeartbeat *)
       split; [intros H0; discriminate H0|]. split; [intros H0; discriminate H0|].
@@ -56,7 +56,7 @@ Section Steps2.
       apply andb_true_iff in Hty as [Hrole Hcm].
       assert (Hr : n_role n = Leader) by (destruct (n_role n); try discriminate; reflexivity).
       apply Nat.leb_le in Hcm. rewrite Hterm. split.
-      + pose proof (hK5 _ _ _ I id (m_to m) Hr) as H5. unfold nd in H5. fold n in H5. lia.
+      + pose proof (hK5 _ _ I id (m_to m) Hr) as H5. unfold nd in H5. fold n in H5. lia.
       + apply leader_CP; [assumption|assumption|fold n; lia].
     - (* MsgSnap *)
       split; [intros H0; discriminate H0|]. split; [intros H0; discriminate H0|].
@@ -67,33 +67,33 @@ Section Steps2.
       apply andb_true_iff in Hty as [Hrole Hidx].
       assert (Hr : n_role n = Leader) by (destruct (n_role n); try discriminate; reflexivity).
       apply Nat.leb_le in Hidx. apply Nat.eqb_eq in Hlt. apply log_eqb_eq in Hents.
-      pose proof (hW5 _ _ _ I id Hr) as HLL. unfold nd in HLL. fold n in HLL.
-      destruct (hK9 _ _ _ I id) as [H9 _]. unfold nd in H9. fold n in H9.
+      pose proof (hW5 _ _ I id Hr) as HLL. unfold nd in HLL. fold n in HLL.
+      destruct (hK9 _ _ I id) as [H9 _]. unfold nd in H9. fold n in H9.
       rewrite Hterm. rewrite HLL.
       split; [|split; [exact Hents|split; [lia|split; [exact Hlt|]]]].
-      + rewrite <- HLL. apply (hW8 _ _ _ I _ id). apply (hA6b _ _ _ I id Hr).
+      + rewrite <- HLL. apply (hW8 _ _ I _ id). apply (hA6b _ _ I id Hr).
       + apply leader_CP; assumption.
   Qed.
 
   (* ---------------------------------------------------------------- campaign *)
   Lemma step_campaign : forall s id,
-    Inv c0 c1 s -> n_role (nodes s id) <> Leader ->
-    Inv c0 c1 (set_gv (set_node s id (record_vote id true (become_candidate id (nodes s id))))
+    Inv F s -> n_role (nodes s id) <> Leader ->
+    Inv F (set_gv (set_node s id (record_vote id true (become_candidate id (nodes s id))))
                       id (S (n_term (nodes s id))) id).
   Proof.
     intros s id I Hnl. set (n := nodes s id) in *. set (t := n_term n).
     set (n' := record_vote id true (become_candidate id n)).
     assert (En' : n' = set_votes (upd (fun _ => None) id (Some true)) (become_candidate id n)) by reflexivity.
     set (gv' := upd2 (gv s) id (S t) (Some id)).
-    change (Inv c0 c1 (set_node_gv s id n' gv')).
-    assert (Hnone : gv s id (S t) = None) by (apply (hA1 _ _ _ I); unfold nd; fold n; fold t; lia).
+    change (Inv F (set_node_gv s id n' gv')).
+    assert (Hnone : gv s id (S t) = None) by (apply (hA1 _ _ I); unfold nd; fold n; fold t; lia).
     apply inv_node_gv; try assumption; fold n; unfold n', record_vote; cbn [set_votes become_candidate n_term n_log n_vote n_role n_commit n_votes n_match]; fold t.
     - lia.
     - reflexivity.
     - right. right. split; [reflexivity|lia].
     - intros x t' c H. unfold gv'. destruct (upd2_cases _ (gv s) id (S t) (Some id) x t') as [(-> & -> & _)|[_ ->]]; [congruence|exact H].
     - intros x t' Hx. unfold gv'. apply upd2_other. left. exact Hx.
-    - intros t' Ht'. unfold gv'. rewrite upd2_other by (right; lia). apply (hA1 _ _ _ I). unfold nd. fold n. fold t. lia.
+    - intros t' Ht'. unfold gv'. rewrite upd2_other by (right; lia). apply (hA1 _ _ I). unfold nd. fold n. fold t. lia.
     - unfold gv'. apply upd2_same.
     - intros t' c H. unfold gv' in H. destruct (upd2_cases _ (gv s) id (S t) (Some id) id t') as [(_ & -> & E)|[_ E]]; rewrite E in H.
       + injection H as <-. right. right. split; [reflexivity|lia].
@@ -107,12 +107,12 @@ Section Steps2.
       assert (x = id).
       { destruct (Nat.eq_dec x id) as [->|Hx]; [reflexivity|].
         unfold gv' in Hg. rewrite upd2_other in Hg by (left; exact Hx).
-        pose proof (hA3 _ _ _ I x (S t) id Hg) as H. unfold nd in H. fold n in H. fold t in H. lia. }
-      subst x. apply (hK6 _ _ _ I id t' k Hv Hk).
+        pose proof (hA3 _ _ I x (S t) id Hg) as H. unfold nd in H. fold n in H. fold t in H. lia. }
+      subst x. apply (hK6 _ _ I id t' k Hv Hk).
     - intros c t' k Hc Hr Hg Ht' Hv Hk. unfold gv' in Hg.
       destruct (upd2_cases _ (gv s) id (S t) (Some id) id (n_term (nodes s c))) as [(_ & _ & E)|[_ E]]; rewrite E in Hg.
       + congruence.
-      + apply (hK8 _ _ _ I c id t' k); assumption.
+      + apply (hK8 _ _ I c id t' k); assumption.
   Qed.
 
   (* ---------------------------------------------------------------- grant *)
@@ -128,17 +128,17 @@ Section Steps2.
   (* the log of a candidate that is at least as up to date as a log holding (t,k) holds (t,k) too,
      unless (t,k) can never be committed *)
   Lemma up_to_date_has : forall s Lx Lc t k tc,
-    Inv c0 c1 s -> wf (LL s) Lx -> wf (LL s) Lc -> terms_lt Lc tc ->
+    Inv F s -> wf (LL s) Lx -> wf (LL s) Lc -> terms_lt Lc tc ->
     valid s t k -> has s Lx t k ->
     (last_term Lx < last_term Lc \/ (last_term Lc = last_term Lx /\ length Lx <= length Lc)) ->
-    has s Lc t k \/ neverq c0 c1 s t k.
+    has s Lc t k \/ neverq F s t k.
   Proof.
     intros s Lx Lc t k tc I HwX HwC Hlt [[Hk1 Hk2] Hkt] [HkX HX] Hup.
     assert (HtX : term_at Lx k = t) by (rewrite (term_at_agree Lx (LL s t) k k HX ltac:(lia)); exact Hkt).
     assert (Htpos : 1 <= t).
-    { rewrite <- Hkt. apply terms_pos_term_at; [apply (hW3 _ _ _ I)|lia]. }
+    { rewrite <- Hkt. apply terms_pos_term_at; [apply (hW3 _ _ I)|lia]. }
     assert (HlastX : t <= last_term Lx).
-    { rewrite <- HtX. unfold last_term. apply (wf_sorted c0 c1 s I Lx HwX); lia. }
+    { rewrite <- HtX. unfold last_term. apply (wf_sorted F s I Lx HwX); lia. }
     set (t5 := last_term Lc) in *.
     assert (Ht5 : t <= t5) by lia.
     assert (HlenC : 1 <= length Lc).
@@ -153,32 +153,32 @@ Section Steps2.
       destruct (wf_in_LL s Lc (length Lc) HwC ltac:(lia)) as [HlenLL HtLL].
       fold (last_term Lc) in HlenLL, HtLL. fold t5 in HlenLL, HtLL.
       assert (HLLne : LL s t5 <> []) by (intros E0; rewrite E0 in HlenLL; cbn in HlenLL; lia).
-      destruct (hK7 _ _ _ I t t5 k ltac:(lia) HLLne (conj (conj Hk1 Hk2) Hkt)) as [[Hk5 H5]|Hn]; [|right; exact Hn].
+      destruct (hK7 _ _ I t t5 k ltac:(lia) HLLne (conj (conj Hk1 Hk2) Hkt)) as [[Hk5 H5]|Hn]; [|right; exact Hn].
       left.
       assert (Htk5 : term_at (LL s t5) k = t) by (rewrite (term_at_agree _ _ k k H5 ltac:(lia)); exact Hkt).
       assert (HkC : k <= length Lc).
       { destruct (le_lt_dec k (length Lc)) as [Hle|Hgt]; [exact Hle|exfalso].
-        destruct (hW3 _ _ _ I t5) as (_ & _ & Hs).
+        destruct (hW3 _ _ I t5) as (_ & _ & Hs).
         pose proof (Hs (length Lc) k ltac:(lia) ltac:(lia) Hk5) as Hmono. lia. }
       split; [exact HkC|].
       rewrite (firstn_agree_le _ _ _ _ _ HCpre HkC). exact H5.
   Qed.
 
   Lemma step_grant : forall s id m,
-    Inv c0 c1 s ->
+    Inv F s ->
     In m (msgs s) -> m_type m = MsgVote -> m_to m = id -> m_term m = n_term (nodes s id) ->
     can_vote m (nodes s id) = true ->
     is_up_to_date (n_log (nodes s id)) (m_index m) (m_logterm m) = true ->
-    Inv c0 c1 (set_gv (add_msgs (set_node s id (set_vote (Some (m_from m)) (nodes s id)))
+    Inv F (set_gv (add_msgs (set_node s id (set_vote (Some (m_from m)) (nodes s id)))
                                 [reply id MsgVoteResp (m_from m) (m_term m) 0 false])
                       id (m_term m) (m_from m)).
   Proof.
     intros s id m I Hm Hty Hto Htm Hcan Hup. set (n := nodes s id) in *. set (t := n_term n) in *.
     set (n' := set_vote (Some (m_from m)) n).
     set (gv' := upd2 (gv s) id (m_term m) (Some (m_from m))).
-    change (Inv c0 c1 (add_msgs (set_node_gv s id n' gv') [reply id MsgVoteResp (m_from m) (m_term m) 0 false])).
+    change (Inv F (add_msgs (set_node_gv s id n' gv') [reply id MsgVoteResp (m_from m) (m_term m) 0 false])).
     assert (Hold : gv s id t = None \/ gv s id t = Some (m_from m)).
-    { pose proof (hA2 _ _ _ I id) as H2. unfold nd in H2. fold n in H2. fold t in H2. rewrite H2.
+    { pose proof (hA2 _ _ I id) as H2. unfold nd in H2. fold n in H2. fold t in H2. rewrite H2.
       unfold can_vote in Hcan. fold n in Hcan. apply orb_true_iff in Hcan as [Hc|Hc].
       - right. apply opt_nat_eqb_eq. exact Hc.
       - left. apply andb_true_iff in Hc as [Hc _]. apply opt_nat_eqb_eq. exact Hc. }
@@ -191,38 +191,38 @@ Section Steps2.
         destruct (upd2_cases _ (gv s) id t (Some (m_from m)) x t') as [(-> & -> & E)|[_ E]]; rewrite E; [|exact H].
         destruct Hold as [Ho|Ho]; congruence.
       + intros x t' Hx. unfold gv'. apply upd2_other. left. exact Hx.
-      + intros t' Ht'. unfold gv'. rewrite Htm. rewrite upd2_other by (right; lia). apply (hA1 _ _ _ I). unfold nd. fold n. fold t. lia.
+      + intros t' Ht'. unfold gv'. rewrite Htm. rewrite upd2_other by (right; lia). apply (hA1 _ _ I). unfold nd. fold n. fold t. lia.
       + unfold gv'. rewrite Htm. apply upd2_same.
       + intros t' c H. unfold gv' in H. rewrite Htm in H.
         destruct (upd2_cases _ (gv s) id t (Some (m_from m)) id t') as [(_ & -> & E)|[_ E]]; rewrite E in H; [|left; exact H].
         injection H as <-. right. destruct (Nat.eq_dec (m_from m) id) as [Ef|Nf].
         * right. split; [exact Ef|lia].
-        * left. split; [exact Nf|]. pose proof (hW12 _ _ _ I m Hm Hty) as H12. unfold nd in H12. lia.
+        * left. split; [exact Nf|]. pose proof (hW12 _ _ I m Hm Hty) as H12. unfold nd in H12. lia.
       + intros Hr x Hv. unfold gv'. rewrite Htm.
-        pose proof (hA5 _ _ _ I id x Hr Hv) as H5. unfold nd in H5. fold n in H5. fold t in H5.
+        pose proof (hA5 _ _ I id x Hr Hv) as H5. unfold nd in H5. fold n in H5. fold t in H5.
         destruct (upd2_cases _ (gv s) id t (Some (m_from m)) x t) as [(-> & _ & E)|[_ E]]; rewrite E; [|exact H5].
         destruct Hold as [Ho|Ho]; congruence.
-      + intros Hr x. apply (hK5 _ _ _ I id x Hr).
+      + intros Hr x. apply (hK5 _ _ I id x Hr).
       + left. reflexivity.
       + (* id is itself a candidate *)
         intros Hr x t' k Hg Ht' Hv Hk.
         destruct (Nat.eq_dec x id) as [->|Hx].
-        * apply (hK6 _ _ _ I id t' k Hv Hk).
+        * apply (hK6 _ _ I id t' k Hv Hk).
         * unfold gv' in Hg. rewrite upd2_other in Hg by (left; exact Hx).
-          apply (hK8 _ _ _ I id x t' k); unfold nd; fold n; fold t; assumption.
+          apply (hK8 _ _ I id x t' k); unfold nd; fold n; fold t; assumption.
       + (* id votes for the candidate c *)
         intros c t' k Hc Hr Hg Ht' Hv Hk. unfold gv' in Hg. rewrite Htm in Hg.
         destruct (upd2_cases _ (gv s) id t (Some (m_from m)) id (n_term (nodes s c))) as [(_ & Etc & E)|[_ E]]; rewrite E in Hg;
-          [|apply (hK8 _ _ _ I c id t' k); assumption].
+          [|apply (hK8 _ _ I c id t' k); assumption].
         injection Hg as Hfc.
         (* the vote request describes c's current log *)
-        pose proof (hW10 _ _ _ I m Hm Hty) as H10. unfold nd in H10. rewrite Hfc in H10.
+        pose proof (hW10 _ _ I m Hm Hty) as H10. unfold nd in H10. rewrite Hfc in H10.
         destruct (H10 Hr ltac:(lia)) as [Hidx Hlt].
-        destruct (hK6 _ _ _ I id t' k Hv Hk) as [Hhas|Hn]; [|right; exact Hn]. unfold nd in Hhas. fold n in Hhas.
+        destruct (hK6 _ _ I id t' k Hv Hk) as [Hhas|Hn]; [|right; exact Hn]. unfold nd in Hhas. fold n in Hhas.
         apply (up_to_date_has s (n_log n) (n_log (nodes s c)) t' k (n_term (nodes s c))); try assumption.
-        * apply (hW1 _ _ _ I id).
-        * apply (hW1 _ _ _ I c).
-        * apply (hW11 _ _ _ I c Hr).
+        * apply (hW1 _ _ I id).
+        * apply (hW1 _ _ I c).
+        * apply (hW11 _ _ I c Hr).
         * destruct (is_up_to_date_spec _ _ _ Hup) as [H|[H1 H2]]; [left; lia|right; split; lia].
     - intros m' [<-|[]]. unfold msg_ok. cbn [reply m_type m_reject m_from m_term m_to].
       split; [|repeat split; intros; discriminate].
